@@ -86,6 +86,9 @@ let pmap f = function
     plist (fun (k, v) -> pn k; f v) l
 let psubs s = plist pitem s.items; pmap pregion s.regions; pmap pstyle s.styles
 
+let poptz = function None -> pint 0 | Some v -> pint 1; pz v
+let rec nat_of_int i = if i <= 0 then O else S (nat_of_int (i - 1))
+
 let run_case (suite : string) (r : rd) : unit =
   match suite with
   | "order" -> plist pitem (order (rlist ritem r))
@@ -103,6 +106,15 @@ let run_case (suite : string) (r : rd) : unit =
   | "optimize" -> psubs (optimize (rsubs r))
   | "rmstyle" -> psubs (remove_styling (rsubs r))
   | "itemtext" -> pstr (item_text (ritem r))
+  | "fmtdur" -> let t = rz r in let sep = rstr r in let k = rint r in pstr (format_duration t sep (nat_of_int k))
+  | "parsedur" -> let s = rstr r in let sep = rn r in let k = rint r in poptz (parse_duration s sep (nat_of_int k))
+  | "parsesrt" -> poptz (parse_srt (rstr r))
+  | "fmtstl" -> let t = rz r in let fps = rz r in pstr (format_stl t fps)
+  | "fmtstlb" -> let t = rz r in let fps = rz r in pstr (format_stl_bytes t fps)
+  | "parsestl" -> let s = rstr r in let fps = rz r in poptz (parse_stl s fps)
+  | "parsestlb" -> let s = rstr r in let fps = rz r in pz (parse_stl_bytes s fps)
+  | "trimspace" -> pstr (trim_space (rstr r))
+  | "atoi" -> poptz (atoi (rstr r))
   | _ -> failwith ("unknown suite " ^ suite)
 
 let () =
